@@ -171,3 +171,24 @@ def parse_natlist(out):
     txt = out[out.rindex("= ") + 2:]
     txt = txt.split(": list nat")[0]
     return [int(x) for x in re.findall(r"\d+", txt.replace("%nat", ""))]
+
+
+def run_chunks(ck, name, defs, runs, imports, chunk=60, workers=4):
+    """evaluate `runs` (Coq terms of type nat) in chunks, a few coqc processes in parallel;
+    returns the list of result codes (raises CoqFailure)"""
+    from concurrent.futures import ThreadPoolExecutor
+    from .lib import CoqFailure, coq_make
+    if not runs: return []
+    coq_make()
+    parts = [runs[a:a + chunk] for a in range(0, len(runs), chunk)]
+
+    def one(k):
+        body = defs + "Eval vm_compute in [%s]." % ";\n ".join(parts[k])
+        out = ck.coq_cases("%s_%d" % (name, k), body, imports)
+        got = parse_natlist(out)
+        if len(got) != len(parts[k]):
+            raise CoqFailure("could not parse model output: " + out[-300:])
+        return got
+    with ThreadPoolExecutor(max_workers=workers) as ex:
+        res = list(ex.map(one, range(len(parts))))
+    return [c for r in res for c in r]
